@@ -495,16 +495,19 @@ class C17(Check):
                             ['random', 'trained-detector']))
         n_tab = 60 if quick else 600
         frag_e = ['ver-', 'Ver-', 'ver', 'Amster-', 'en', '-', '.', 'a=', 'ge--', 'x„', '12-', 'DE-', 'ǅe-']
-        frag_s = ['dam', 'Dam', 'DAM', 'gadering', '12', '-', '.', '-dam', 'en', 'ǅam', 'A', 'é']
+        # start words that themselves end with a break character: a word broken over three lines ('geval-' / 'len-' /
+        # 'de'); the break character at the END of the start word is not at the junction
+        frag_s = ['dam', 'Dam', 'DAM', 'gadering', '12', '-', '.', '-dam', 'en', 'ǅam', 'A', 'é', 'len-', 'dering=', 'dam--']
         for _ in range(n_tab):
             B = rng.choice(BREAK_SETS)
             es = rng.sample(frag_e, 5)
             ss = rng.sample(frag_s, 5)
             vocab = es + ss + [e[:-1] for e in es if e] + [e + s for e in es for s in ss if rng.random() < 0.5] + \
                     [e.rstrip(B) + s.lstrip(B) for e in es for s in ss if rng.random() < 0.5]
+            vocab += [v.rstrip(B) for v in vocab if v and v[-1] in B and rng.random() < 0.7]
             vocab = sorted(set(v for v in vocab if v))
             tables = random_tables(rng, B, vocab)
-            pairs = [['x ' + e, s + ' y'] for e in es for s in ss]
+            pairs = [['x ' + e, s + rng.choice([' y', ' y', ''])] for e in es for s in ss]
             out.append(Case('pairs', {'B': rng.choice(BREAK_SETS), 'det': {'tables': tables}, 'pairs': pairs},
                             ['random', 'table-detector']))
         # small counters: the comparisons `x > factor * y`, `x < factor`, `x > N` of the predicates flip between
@@ -513,9 +516,10 @@ class C17(Check):
         for _ in range(60 if quick else 600):
             B = rng.choice(BREAK_SETS)
             es = rng.sample(['ver-', 'ver', 'ge-', 'Ver-', 'x=', 'on-', 'é-'], 3)
-            ss = rng.sample(['Dam', 'Gadering', 'dam', 'A', 'ǅam', 'Én', '12'], 3)
+            ss = rng.sample(['Dam', 'Gadering', 'dam', 'A', 'ǅam', 'Én', '12', 'len-', 'Dering='], 3)
             vocab = sorted(set(es + ss + [e[:-1] for e in es] + [e + s for e in es for s in ss] +
-                               [e.rstrip(B) + s for e in es for s in ss]))
+                               [e.rstrip(B) + s for e in es for s in ss] +
+                               [e.rstrip(B) + s.rstrip(B) for e in es for s in ss]))
 
             def small(p, hi):
                 return sorted([w, rng.randint(0, hi)] for w in vocab if rng.random() < p)
